@@ -71,6 +71,8 @@ func body(r *vf.Run) {
 	case "share":
 		prebuiltDir = r.ChildArgs[0]
 		stageShare(r)
+	case "hostile":
+		stageHostile(r)
 	}
 }
 
@@ -274,7 +276,7 @@ func top(r *vf.Run) {
 		if hi > total {
 			hi = total
 		}
-		if lo >= hi || stages == "share" {
+		if lo >= hi || stages == "share" || stages == "hostile" {
 			continue
 		}
 		wg.Add(1)
@@ -284,11 +286,11 @@ func top(r *vf.Run) {
 			judgeChild(r, "diff", ex)
 		}(lo, hi)
 	}
-	if stages != "diff" {
+	if stages != "diff" && stages != "hostile" {
 		wg.Add(1)
 	}
 	go func() {
-		if stages == "diff" {
+		if stages == "diff" || stages == "hostile" {
 			return
 		}
 		defer wg.Done()
@@ -300,6 +302,16 @@ func top(r *vf.Run) {
 		ex := r.RunChild(vf.ChildSpec{Stage: "share", Race: true, Args: []string{pdir}, Timeout: time.Duration(r.N(10, 30)) * time.Minute, Attribution: attribution})
 		judgeChild(r, "share", ex)
 	}()
+	if stages == "" || stages == "hostile" {
+		wg.Add(1)
+		go func() {
+			defer wg.Done()
+			t0 := time.Now()
+			defer func() { r.Logf("stage hostile took %v", time.Since(t0)) }()
+			ex := r.RunChild(vf.ChildSpec{Stage: "hostile", Race: true, Timeout: time.Duration(r.N(10, 30)) * time.Minute, Attribution: attribution})
+			judgeChild(r, "hostile", ex)
+		}()
+	}
 	wg.Wait()
 	r.Set("case_list", map[string]int{"builder": nb, "hand_listed": nh, "hand_random_combos": nc})
 	r.Assume("std archive/tar, compress/gzip, encoding/json and crypto/sha256 (used by the hand assembler and the ground truth) are correct; klauspost zstd only through the repo's own builder")
@@ -369,6 +381,15 @@ func openMem(c *oneCase) (o opened) {
 		o.err = fmt.Errorf("panic")
 	}
 	return
+}
+
+// openDBBlob opens raw blob bytes (gzip eStargz) with the db store; panics become errors.
+func openDBBlob(db *bolt.DB, blob []byte) (rd metadata.Reader, err error) {
+	p, v, _ := vf.Recover(func() { rd, err = dbmetadata.NewReader(db, section(blob)) })
+	if p {
+		return nil, fmt.Errorf("panic: %v", v)
+	}
+	return rd, err
 }
 
 func openDB(db *bolt.DB, c *oneCase) (o opened) {
